@@ -4,6 +4,17 @@
    _init_search; tie H: the verified checker check_graph is evaluated inside
    Coq on the graphs the REAL enumeration returns).
 
+   Tie T (second half of this file): action_to_steps, _action_to_steps,
+   _select_candidate_nodes, _primed_vars_per_quantifier, _init_search, the four
+   initial-value searches, _find_node, _add_new_node and _node_tuple of the
+   CURRENT omega/games/enumeration.py are translated into gen/GamesEnumGen.v
+   on every run (tools/py2coq_games_enum.py) and proved EQUAL to the
+   code-level model L4Enum/EnumCode.v (C12_model_is_translated_code), which
+   L4Enum/EnumCodeProofs.v relates to the abstract worklist model by a
+   simulation; the C12_translated_* theorems are about the generated
+   functions.  Only enumeration._add_to_visited (formula built as a string and
+   parsed) is taken by what it denotes.
+
    Domain (as in DESIGN §6 C12): the environment's action does not read the
    component's next values, so it is a predicate E x y x'.  dd's `pick` is a
    parameter of which only "returns a member of the given set" is assumed.
@@ -150,6 +161,183 @@ Example C12_example :
   end = true.
 Proof. vm_compute. reflexivity. Qed.
 
+From Coq Require Import String.
+From Omega Require Import L4Enum.EnumOrder L4Enum.EnumOrderProofs L4Enum.EnumArena
+  L4Enum.EnumArenaProofs L4Enum.EnumContracts L4Enum.EnumCode L4Enum.EnumCodeProofs.
+From OmegaGen Require GamesEnumGen.
+From OmegaGP Require Import GamesEnumBridge.
+
+(* ---- tie T: the translated code --------------------------------------------- *)
+(* every translated function of omega/games/enumeration.py equals the function
+   of the code-level model, for all arguments *)
+Theorem C12_model_is_translated_code :
+  forall (nx ny : nat) (pick : bdd -> list var -> option asg)
+         (pick_iter : bdd -> list var -> list asg),
+  (forall d keys, GamesEnumGen.node_tuple d keys = c_node_tuple d keys) /\
+  (forall d um keys, GamesEnumGen.find_node d um keys = c_find_node d um keys) /\
+  (forall d g q um keys,
+     GamesEnumGen.add_new_node d g q um keys = c_add_new_node d g q um keys) /\
+  (forall u v a b,
+     GamesEnumGen.select_candidate_nodes nx ny u v a b =
+     c_select_candidate_nodes nx ny u v a b) /\
+  (forall vl,
+     GamesEnumGen.primed_vars_per_quantifier vl = c_primed_vars_per_quantifier vl) /\
+  (forall g a um keys,
+     GamesEnumGen.forall_init nx ny pick_iter g a um keys =
+     c_forall_init nx ny pick_iter g a um keys) /\
+  (forall g a um keys,
+     GamesEnumGen.exist_init nx ny pick g a um keys = c_exist_init nx ny pick g a um keys) /\
+  (forall g a um keys,
+     GamesEnumGen.forall_exist_init nx ny pick pick_iter g a um keys =
+     c_forall_exist_init nx ny pick pick_iter g a um keys) /\
+  (forall g a um keys,
+     GamesEnumGen.exist_forall_init nx ny pick pick_iter g a um keys =
+     c_exist_forall_init nx ny pick pick_iter g a um keys) /\
+  (forall g a um keys q,
+     GamesEnumGen.init_search nx ny pick pick_iter g a um keys q =
+     c_init_search nx ny pick pick_iter g a um keys q) /\
+  (forall fuel a q,
+     GamesEnumGen.action_to_steps_ nx ny pick pick_iter fuel a q =
+     c_action_to_steps_ nx ny pick pick_iter fuel a q) /\
+  (forall fuel a e s q,
+     GamesEnumGen.action_to_steps nx ny pick pick_iter fuel a e s q =
+     c_action_to_steps nx ny pick pick_iter fuel a e s q).
+Proof. exact gen_is_code. Qed.
+
+(* the abstract worklist model of the first half of this file is the instance
+   "next environment values in index order" of the model the code-level model
+   is simulated by (EnumOrder.run_o takes the order of dd's pick_iter as a
+   parameter) *)
+Theorem C12_abstract_model_is_order_instance :
+  forall nx ny E S pick fuel g,
+  run_o ny E S pick (fun _ => seq 0 nx) fuel g = run nx ny E S pick fuel g.
+Proof. exact run_o_seq. Qed.
+
+Section C12translated.
+Variables nx ny : nat.
+(* a context always has at least one valuation of each player's variables *)
+Hypothesis nx_pos : 0 < nx.
+Hypothesis ny_pos : 0 < ny.
+(* dd's pick / pick_iter: any functions meeting the contracts of
+   L4Enum/EnumContracts.v (a member / all members once, for a BDD that depends
+   on no variable outside care_vars) *)
+Variable pick : bdd -> list var -> option asg.
+Variable pick_iter : bdd -> list var -> list asg.
+Hypothesis pick_ok : pick_contract nx ny pick.
+Hypothesis pick_iter_ok : pick_iter_contract nx ny pick_iter.
+(* the two actions and the two initial conditions, by meaning; C12's domain:
+   the environment's action does not read the component's next values *)
+Variable E : nat -> nat -> nat -> bool.
+Variable S : nat -> nat -> nat -> nat -> bool.
+Variable EI : nat -> bool.
+Variable SI : nat -> nat -> bool.
+(* the arguments of action_to_steps(aut, env, sys, qinit) *)
+Variable a0 : automaton.
+Variables env sys : string.
+Hypothesis vl_env : dict_get String.eqb env (a_varlist a0) = Some [U Env].
+Hypothesis vl_sys : dict_get String.eqb sys (a_varlist a0) = Some [U Sys].
+Hypothesis act_env : dict_get String.eqb env (a_action a0) =
+  Some (mkv nx ny (fun r => E (vx r) (vy r) (vxp r))).
+Hypothesis act_sys : dict_get String.eqb sys (a_action a0) =
+  Some (mkv nx ny (fun r => S (vx r) (vy r) (vxp r) (vyp r))).
+Hypothesis init_env : dict_get String.eqb env (a_init a0) =
+  Some (mkv nx ny (fun r => EI (vx r))).
+Hypothesis init_sys : dict_get String.eqb sys (a_init a0) =
+  Some (mkv nx ny (fun r => SI (vx r) (vy r))).
+
+Local Notation translated fuel q :=
+  (GamesEnumGen.action_to_steps nx ny pick pick_iter fuel a0 env sys q).
+
+(* whatever graph the translated action_to_steps returns (None = the code
+   raises) satisfies C12's statement: the verified checker accepts it *)
+Theorem C12_translated_enumeration_sound : forall fuel qinit gf,
+  translated fuel qinit = Some gf -> check_graph nx ny E S (graph_of gf) = true.
+Proof.
+  exact (translated_enumeration_sound nx ny nx_pos ny_pos pick pick_iter pick_ok pick_iter_ok
+           E S EI SI a0 env sys vl_env vl_sys act_env act_sys init_env init_sys).
+Qed.
+
+(* and its paths are behaviours of the two actions *)
+Theorem C12_translated_paths_are_behaviours : forall fuel qinit gf (path : nat -> nat),
+  translated fuel qinit = Some gf ->
+  (forall i, In (path i, path (Datatypes.S i)) (edges (graph_of gf))) ->
+  let sigma := fun i => nth (path i) (nodes (graph_of gf)) (0, 0) in
+  forall i, E (fst (sigma i)) (snd (sigma i)) (fst (sigma (Datatypes.S i))) = true /\
+            S (fst (sigma i)) (snd (sigma i)) (fst (sigma (Datatypes.S i)))
+              (snd (sigma (Datatypes.S i))) = true.
+Proof.
+  exact (translated_paths_are_behaviours nx ny nx_pos ny_pos pick pick_iter pick_ok pick_iter_ok
+           E S EI SI a0 env sys vl_env vl_sys act_env act_sys init_env init_sys).
+Qed.
+
+(* the initial nodes (the first nodes of the graph, recorded in
+   g.initial_nodes) follow the requested qinit pattern *)
+Theorem C12_translated_init_forall_forall : forall fuel gf,
+  translated fuel "\A \A" = Some gf ->
+  exists l, initial_states gf l /\ NoDup l /\
+    forall s, In s l <->
+      (fst s < nx /\ snd s < ny) /\ EI (fst s) = true /\ SI (fst s) (snd s) = true.
+Proof.
+  exact (translated_init_forall_forall nx ny nx_pos ny_pos pick pick_iter pick_ok pick_iter_ok
+           E S EI SI a0 env sys vl_env vl_sys act_env act_sys init_env init_sys).
+Qed.
+
+Theorem C12_translated_init_exists_exists : forall fuel gf,
+  translated fuel "\E \E" = Some gf ->
+  exists x y, initial_states gf [(x, y)] /\ x < nx /\ y < ny /\ SI x y = true.
+Proof.
+  exact (translated_init_exists_exists nx ny nx_pos ny_pos pick pick_iter pick_ok pick_iter_ok
+           E S EI SI a0 env sys vl_env vl_sys act_env act_sys init_env init_sys).
+Qed.
+
+Theorem C12_translated_init_forall_exists : forall fuel gf,
+  translated fuel "\A \E" = Some gf ->
+  exists l, initial_states gf l /\ NoDup l /\
+    NoDup (map fst l) /\ (forall x, In x (map fst l) <-> x < nx /\ EI x = true) /\
+    forall s, In s l -> snd s < ny /\ EI (fst s) = true /\ SI (fst s) (snd s) = true.
+Proof.
+  exact (translated_init_forall_exists nx ny nx_pos ny_pos pick pick_iter pick_ok pick_iter_ok
+           E S EI SI a0 env sys vl_env vl_sys act_env act_sys init_env init_sys).
+Qed.
+
+Theorem C12_translated_init_exists_forall : forall fuel gf,
+  translated fuel "\E \A" = Some gf ->
+  exists l y, initial_states gf l /\ NoDup l /\
+    y < ny /\ (forall x, x < nx -> SI x y = true) /\ (forall s, In s l -> snd s = y) /\
+    NoDup (map fst l) /\ (forall x, In x (map fst l) <-> x < nx /\ EI x = true).
+Proof.
+  exact (translated_init_exists_forall nx ny nx_pos ny_pos pick pick_iter pick_ok pick_iter_ok
+           E S EI SI a0 env sys vl_env vl_sys act_env act_sys init_env init_sys).
+Qed.
+
+(* termination of `while queue:`: with fuel >= number of valuations, more fuel
+   gives the same result (None is then an exception of the code, never fuel) *)
+Theorem C12_translated_fuel_never_exhausted : forall fuel k qinit,
+  nx * ny <= fuel -> translated (fuel + k) qinit = translated fuel qinit.
+Proof.
+  exact (translated_fuel_never_exhausted nx ny nx_pos ny_pos pick pick_iter pick_ok pick_iter_ok
+           E S EI SI a0 env sys vl_env vl_sys act_env act_sys init_env init_sys).
+Qed.
+End C12translated.
+
+(* non-vacuity of the hypotheses: concrete pick / pick_iter meet the contracts
+   on every arena; with them the translated action_to_steps, evaluated in Coq
+   on a 2 x 3 arena, returns for each qinit a graph of several nodes that the
+   checker accepts *)
+Example C12_pick_contracts_satisfiable : forall nx ny,
+  pick_contract nx ny (pick0 nx ny) /\ pick_iter_contract nx ny (pick_iter0 nx ny).
+Proof. intros nx ny. split; [apply pick0_ok|apply pick_iter0_ok]. Qed.
+
+Example C12_translated_example :
+  forallb (fun q =>
+    match GamesEnumGen.action_to_steps 2 3 (pick0 2 3) (pick_iter0 2 3) 20 ex_aut "e" "s" q with
+    | Some g => check_graph 2 3 ex_E ex_S (graph_of g) &&
+                (2 <=? List.length (g_nodes g)) &&
+                match g_initial g with Some (_ :: _) => true | _ => false end
+    | None => false
+    end) ["\A \A"; "\E \E"; "\A \E"; "\E \A"]%string = true.
+Proof. exact translated_example. Qed.
+
 Print Assumptions C12_paths_are_behaviours.
 Print Assumptions C12_paths_inherit.
 Print Assumptions C12_enumeration_sound.
@@ -157,3 +345,12 @@ Print Assumptions C12_fuel_never_exhausted.
 Print Assumptions C12_checker_input_complete.
 Print Assumptions C12_init_forall_exists.
 Print Assumptions C12_init_exists_forall.
+Print Assumptions C12_model_is_translated_code.
+Print Assumptions C12_translated_enumeration_sound.
+Print Assumptions C12_translated_paths_are_behaviours.
+Print Assumptions C12_translated_init_forall_forall.
+Print Assumptions C12_translated_init_exists_exists.
+Print Assumptions C12_translated_init_forall_exists.
+Print Assumptions C12_translated_init_exists_forall.
+Print Assumptions C12_translated_fuel_never_exhausted.
+Print Assumptions C12_pick_contracts_satisfiable.
